@@ -142,6 +142,38 @@ class RefStructure:
                 keys = {t[0] for t in new} | {t[0][::-1] for t in new}
                 self.terms[k] = [t for t in self.terms[k] if t[0] not in keys] + new
 
+    def replace(self, matches, pattern_ref, shared, replace_all):
+        """semantic model of a replacement: per match extend-with-identity-map, then delete the matched atoms
+        that are not retained.  matches: structure index tuples in pattern order; pattern_ref(mi) -> fresh
+        RefStructure of the replacement (None: empty replacement); shared: replacement index -> search index.
+        Returns the number of inserted atoms (they are at the tail, in match order)."""
+        dead = []; inserted = 0
+        for mi, match in enumerate(matches):
+            pref = pattern_ref(mi)
+            if pref is None:
+                dead += list(match); continue
+            m = {} if replace_all else {i: match[j] for i, j in shared.items()}
+            inserted += len(pref.atoms) - len(m)
+            self.extend(pref, m)
+            dead += [a for a in match if a not in m.values()]
+        self.delete(sorted(set(dead)))
+        return inserted
+
+    def subset(self, idx):
+        """atoms[idx]: the selected atoms with their resolved type data; no terms, no extra columns"""
+        atoms = []
+        for n, i in enumerate(idx):
+            e, l, ms, pc, q, g, x, p = self.atoms[i]['rec']
+            atoms.append(dict(uid=n, rec=(e, l, ms, pc, q, g, (), p)))
+        return RefStructure(atoms, {k: [] for k in KINDS}, self.cell)
+
+    def lammps_roundtrip(self, decimals=6):
+        """what a LAMMPS data file can carry: positions / charges at the printed precision, no extra columns"""
+        for a in self.atoms:
+            e, l, ms, pc, q, g, x, p = a['rec']
+            a['rec'] = (e, l, round(ms, decimals), pc, round(q, decimals), g, (), tuple(round(v, decimals) for v in p))
+        self.terms = {k: [(t, c, ()) for t, c, x in v] for k, v in self.terms.items()}
+
     def replicated(self, dims):
         """same crystal in an a x b x c cell: image-major, images in any order (compare as sets)"""
         cell = self.cell
@@ -161,6 +193,12 @@ class RefStructure:
         return out
 
 
+def coeff_tokens(s):
+    """coefficient text compared token for token: (tokens before the comment, comment words | None)"""
+    body, sep, comment = str(s).partition('#')
+    return body.split(), (comment.split() if sep else None)
+
+
 def _split(rec):
     return rec[:-1], np.array(rec[-1], dtype=float)
 
@@ -173,6 +211,8 @@ def compare_views(real, ref, pos_tol=POS_TOL, ordered=True):
         return 'atom count %d, reference %d' % (len(ra), len(fa))
     for i, (x, y) in enumerate(zip(ra, fa)):
         hx, px = _split(x); hy, py = _split(y)
+        if hx[3] is not None and hy[3] is not None and coeff_tokens(hx[3]) == coeff_tokens(hy[3]):
+            hx = hx[:3] + (hy[3],) + hx[4:]
         if hx != hy:
             return 'atom %d is %r, reference %r' % (i, hx, hy)
         if np.abs(px - py).max() > pos_tol:
@@ -192,7 +232,7 @@ def compare_views(real, ref, pos_tol=POS_TOL, ordered=True):
             if c1.startswith('#') != c2.startswith('#'):
                 return '%s %d %r resolves to %r, reference %r' % (k, j, t1, c1, c2)
             if not c1.startswith('#'):
-                if c1 != c2:
+                if coeff_tokens(c1) != coeff_tokens(c2):
                     return '%s %d %r resolves to coefficient text %r, reference %r' % (k, j, t1, c1, c2)
             elif fwd.setdefault(c1, c2) != c2 or bwd.setdefault(c2, c1) != c1:
                 return '%s %d %r has type id %s which does not keep its meaning (reference token %s; ids seen %r)' % (k, j, t1, c1, c2, fwd)
